@@ -1,9 +1,11 @@
 SPECIFICATION Spec
 CONSTANT CheckBounds = TRUE
+CONSTANT CheckShort = TRUE
 CONSTANT MaxRows = 6
 INVARIANT WindowRows
 INVARIANT Served
 INVARIANT Rejected
 INVARIANT InOrder
 INVARIANT NoWriteThrough
+INVARIANT SecondColumn
 CHECK_DEADLOCK FALSE
